@@ -1,6 +1,7 @@
 package fuse
 
 import (
+	"errors"
 	"fmt"
 	"os"
 	"strings"
@@ -52,6 +53,8 @@ func ToError(err error) error {
 		return &Error{err: err, errno: fuse.ToErrno(syscall.ENOENT)}
 	} else if err == litefs.ErrReadOnlyReplica {
 		return &Error{err: err, errno: fuse.ToErrno(syscall.EACCES)}
+	} else if errors.Is(err, syscall.EBUSY) {
+		return &Error{err: err, errno: fuse.ToErrno(syscall.EBUSY)}
 	}
 	return err
 }
